@@ -68,7 +68,7 @@ m('c16_revert_f7', 'C16', S, "        except asyncio.CancelledError:\n          
 m('c16_revert_f15', 'C16', MO, " or not bus._is_running:  # pyright: ignore[reportPrivateUsage]", " or False:", 'revert F15')
 m('c16_revert_f18', 'C16', S, "            if self.event_queue is not None and self.event_queue._is_shutdown:  # pyright: ignore[reportPrivateUsage]\n                return", "            if False:\n                return", 'revert F18')
 m('c16_no_queue_shutdown', 'C16', S, "        if self.event_queue:\n            self.event_queue.shutdown()\n", "        pass\n", 'stop without queue shutdown')
-m('c16_revert_f28', ['C16', 'C06'], S, "                await asyncio.gather(*[task for task, _handler in handler_tasks.values()], return_exceptions=True)\n", "                for _hid, (task, _handler) in handler_tasks.items():\n                    try:\n                        await task\n                    except Exception:\n                        pass\n", 'revert F28: handler tasks awaited one by one')
+m('c16_revert_f28', 'C16', S, "                await asyncio.gather(*[task for task, _handler in handler_tasks.values()], return_exceptions=True)\n", "                for _hid, (task, _handler) in handler_tasks.items():\n                    try:\n                        await task\n                    except Exception:\n                        pass\n", 'revert F28: handler tasks awaited one by one')
 # ---- C17
 m('c17_wal_before_handlers', 'C17', S, "        await self._execute_handlers(event, handlers=applicable_handlers, timeout=timeout)\n\n        await self._default_log_handler(event)\n        await self._default_wal_handler(event)\n", "        await self._default_wal_handler(event)\n        await self._execute_handlers(event, handlers=applicable_handlers, timeout=timeout)\n\n        await self._default_log_handler(event)\n", 'WAL written before handlers')
 m('c17_skip_nested', 'C17', S, "        if not self.wal_path:\n            return None\n", "        if not self.wal_path or event.event_parent_id:\n            return None\n", 'nested events not logged')
